@@ -207,6 +207,58 @@ def ob_symmetry_and_constants(gridname):
     return held("; ".join(txt))
 
 
+def replay_factory_guards():
+    """Error paths of the factories whose bilinear forms need particular spaces: hypersingular operators take surface curls of piecewise-linear functions (shapeset
+    p1_discontinuous: P1, DP1) and reject piecewise constants; the Maxwell boundary operators take div-conforming trial functions (identifier rwg0: RWG, BC) and
+    curl-conforming test functions (snc0: SNC, RBC).  Anything else must raise ValueError instead of producing numbers."""
+    import importlib
+    import warnings
+
+    import bempp_cl.api as api
+
+    warnings.simplefilter("ignore")
+    g = Z.grid_with_domains("octa")
+    par = Z.params(2, 2)
+    sp = {k: api.function_space(g, *v) for k, v in {"DP0": ("DP", 0), "DP1": ("DP", 1), "P1": ("P", 1), "RWG": ("RWG", 0), "SNC": ("SNC", 0), "BC": ("BC", 0), "RBC": ("RBC", 0)}.items()}
+    problems = []
+
+    def expect(label, thunk, ok):
+        try:
+            thunk()
+        except ValueError:
+            if ok:
+                problems.append("%s is rejected although the spaces are admissible" % label)
+            return
+        except Exception as ex:  # noqa
+            problems.append("%s raises %s instead of %s" % (label, type(ex).__name__, "nothing" if ok else "ValueError"))
+            return
+        if not ok:
+            problems.append("%s is accepted although the spaces are not admissible" % label)
+
+    for fam, k in (("laplace", None), ("helmholtz", 1.1 + 0.2j), ("modified_helmholtz", 0.8)):
+        mod = importlib.import_module("bempp_cl.api.operators.boundary." + fam)
+        for dom in ("DP0", "DP1", "P1"):
+            for dual in ("DP0", "DP1", "P1"):
+                args = (sp[dom], sp[dom], sp[dual]) + (() if k is None else (k,))
+                expect("%s.hypersingular(domain %s, dual %s)" % (fam, dom, dual), lambda a=args: mod.hypersingular(*a, parameters=par), dom != "DP0" and dual != "DP0")
+    from bempp_cl.api.operators.boundary import maxwell as MB
+
+    for name in ("electric_field", "magnetic_field"):
+        for dom in ("RWG", "SNC", "BC", "RBC", "P1"):
+            for dual in ("RWG", "SNC", "BC", "RBC"):
+                expect("maxwell.%s(domain %s, dual %s)" % (name, dom, dual), lambda d=dom, t=dual, n=name: getattr(MB, n)(sp[d], sp[d], sp[t], 1.2, parameters=par),
+                       dom in ("RWG", "BC") and dual in ("SNC", "RBC"))
+    return {"violates": bool(problems), "problems": problems[:8]}
+
+
+def ob_factory_guards():
+    r = replay_factory_guards()
+    if r["violates"]:
+        return violated("space-kind guards of the hypersingular / Maxwell factories: %s" % "; ".join(r["problems"][:4]), witness={"problems": r["problems"]}, signature="factory-guards",
+                        replay={"callable": "checks.c06:replay_factory_guards", "kwargs": {}, "confirmed": True})
+    return held("hypersingular: P1 / DP1 accepted, DP0 rejected (3 families); Maxwell: RWG / BC x SNC / RBC accepted, everything else rejected")
+
+
 def main():
     run = Run("C06", "other")
     thorough = run.tier == "thorough"
@@ -247,6 +299,7 @@ def main():
         run.add("decomposition.maxwell.imaginary-k[%s]" % g, "bounded", ob_decomposition, g, "maxwell", 0.9j)
         run.add("decomposition.helmholtz.imaginary-k[%s]" % g, "bounded", ob_decomposition, g, "helmholtz", 0.7j)
     run.add("symmetry+constants[octa]", "bounded", ob_symmetry_and_constants, "octa")
+    run.add("factories.space-kind-guards", "bounded", ob_factory_guards)
     run.bound("pipeline contracts: two-element meshes (4 local numberings), tetrahedron, two disjoint grids (thorough: 2x2 screen); 2 regular / 3,2,1 singular points")
     run.bound("matrix decompositions: octahedron (thorough: + screen) with 3 domain indices, 5 space option sets x 2, orders (3,3)")
     run.assume("Piola identity: surface divergence of J ref/|J| equals the reference divergence / |J| (mathematics)")
